@@ -37,7 +37,7 @@ type c17Peer struct {
 
 func (p c17Peer) wellFormed() bool {
 	idxOK := len(p.Idx) == 2 && p.Idx[0] >= '0' && p.Idx[0] <= '9' && p.Idx[1] >= '0' && p.Idx[1] <= '9'
-	maskOK := p.Mask == 0 || (p.Mask&^int32(api.ValidEvents)) == 0
+	maskOK := p.Mask == 0 || (p.Mask&^c17ValidMask) == 0 // thirteen events; written down here, not taken from the code under test
 	return p.Name != "" && idxOK && maskOK && p.Stall == ""
 }
 
@@ -64,7 +64,7 @@ func c17Cases(tier string, g *rand.Rand) [][]c17Peer {
 	for b := 0; b < 13; b++ {
 		one(c17Peer{Name: "p", Idx: "20", Mask: 1 << b})
 	}
-	one(c17Peer{Name: "p", Idx: "20", Mask: int32(api.ValidEvents)})
+	one(c17Peer{Name: "p", Idx: "20", Mask: c17ValidMask})
 	for b := 13; b < 32; b++ {
 		one(c17Peer{Name: "p", Idx: "20", Mask: int32(uint32(1) << b)})
 		one(c17Peer{Name: "p", Idx: "20", Mask: int32(uint32(1)<<b) | 1})
@@ -73,7 +73,7 @@ func c17Cases(tier string, g *rand.Rand) [][]c17Peer {
 	for i := 0; i < tierN(tier, 12, 2400); i++ {
 		m := int32(g.Uint32())
 		if g.IntN(3) == 0 {
-			m &= int32(api.ValidEvents)
+			m &= c17ValidMask
 		}
 		one(c17Peer{Name: "p", Idx: fmt.Sprintf("%02d", g.IntN(100)), Mask: m})
 	}
@@ -558,3 +558,6 @@ func init() {
 		Run:      runC17,
 	})
 }
+
+// c17ValidMask: the thirteen events of the protocol (bits 0..12).
+const c17ValidMask int32 = 0x1fff
